@@ -128,7 +128,7 @@ def trace_filter(code):
 
 
 LINE_FILES = (os.path.join(REPO_LAYERS, "__init__.py"), os.path.join(REPO_LAYERS, "noise", "layer.py"),
-              os.path.join(REPO_LAYERS, "noise", "layer_noise_segments.py"))
+              os.path.join(REPO_LAYERS, "noise", "layer_noise_segments.py"), os.path.join(REPO_LAYERS, "network", "layer.py"))
 
 
 def line_filter(code):
